@@ -228,17 +228,6 @@ def check_object(a):
     return None
 
 
-def _attr_namespaces(m, inst):
-    for f in m["fields"]:
-        if f["kind"] == "attribute" and inst[f["name"]] is not None and f["namespace"]:
-            yield f["namespace"]
-        if f["kind"] == "element" and isinstance(f["type"], dict):
-            v = inst[f["name"]]
-            for x in v if f["list"] else [v]:
-                if x is not None:
-                    yield from _attr_namespaces(f["type"], x)
-
-
 def covered_object(a, msg):
     """the user-map findings apply to object inputs as well (same predicates on the map;
     default-namespace attributes read off the description)"""
@@ -253,10 +242,6 @@ def covered_object(a, msg):
         pred, where = O.KNOWN[fid]
         if kind in where.get(w, ()) and pred(fake):
             return fid
-    d = O.user_map(a["ns_map"]).get(None)
-    if d and d in set(_attr_namespaces(a["model"], a["inst"])):
-        if kind in O.KNOWN["c03-default-ns-attribute"][1].get(w, ()):
-            return "c03-default-ns-attribute"
     return None
 
 
